@@ -388,6 +388,19 @@ def _run_one(ctx, f, last, pool_level_total):
             trig = norm.entails(fs, OVER_CAP) or g.holds_at(clp, OVER_CAP)
             ctx.ob(5, "K2", "victims are scored only when the pool's usage exceeds its capacity", trig, f, clp, construct="scoring block trigger",
                    detail=f"facts at the scoring loop: {sorted(norm.show(x) for x in g.facts_at(clp))}")
+            # ... and whenever it does: the only way past the scoring block is `usage <= capacity` itself (not "few containers", not a flag)
+            fits = norm.neg(OVER_CAP)
+
+            def edge_ok(a, b, lab, fits=fits):
+                if isinstance(lab, tuple) and lab[0] == "cond":
+                    at = norm.atoms_true(lab[1])
+                    if fits in at:
+                        return False
+                return True
+            byp = g.path_avoiding(g.entry.id, {g.exit.id}, {g.node_of(clp).id}, edge_ok=edge_ok)
+            ctx.ob(5, "K2", "the pool-level pass runs whenever the pool's usage exceeds its capacity (it is skipped only under `usage <= capacity`)", byp is None, f, clp,
+                   construct="scoring block is not bypassed", detail="every path around the scoring loop passes the test usage <= capacity" if byp is None
+                   else f"the pass can be skipped while the pool is over its capacity: {g.describe_path(byp)}")
             for k1 in s1:
                 l1 = enclosing_for(k1, f.node) or k1
                 ctx.ob(5, "K3", "containers over their own limit are killed before pool-level victims are chosen", g.dominates(l1, clp), f, k1,
